@@ -169,6 +169,36 @@ func pubBoundaryCase(t *engine.T) {
 	scan("2^255", new(big.Int).Lsh(one, 255), 1, 1)
 	scan("2^224", new(big.Int).Lsh(one, 224), 1, 1) // four leading zero bytes
 	pubs = append(pubs, cand{"G", c.G()}, cand{"-G", c.Neg(c.G())}, cand{"[2]G", g.Mul(big.NewInt(2))})
+	// boundary values of the INTERNAL (Montgomery, x*2^256 mod p) representation: the on-curve check of every verify
+	// adds x+x+x there, so its conditional subtraction depends on where that value lies relative to p/3, p/2, p
+	{
+		two256 := new(big.Int).Lsh(one, 256)
+		rinv := new(big.Int).ModInverse(two256, c.P)
+		ceil3 := new(big.Int).Div(new(big.Int).Add(c.P, big.NewInt(2)), big.NewInt(3))
+		lims := []struct {
+			name string
+			m    *big.Int
+			step int64
+		}{
+			{"mont=ceil(p/3)", ceil3, 1},
+			{"mont=(2^256-1)/3", new(big.Int).Div(new(big.Int).Sub(two256, one), big.NewInt(3)), -1},
+			{"mont=ceil(p/2)", new(big.Int).Div(new(big.Int).Add(c.P, one), big.NewInt(2)), 1},
+			{"mont=p-1", new(big.Int).Sub(c.P, one), -1},
+		}
+		for _, l := range lims {
+			m := new(big.Int).Set(l.m)
+			found := 0
+			for i := 0; i < 64 && found < 2; i++ {
+				x := new(big.Int).Mul(m, rinv)
+				x.Mod(x, c.P)
+				if p0, ok := c.LiftX(x, uint(i&1)); ok {
+					pubs = append(pubs, cand{fmt.Sprintf("%s%+d", l.name, int64(i)*l.step), p0})
+					found++
+				}
+				m.Add(m, big.NewInt(l.step))
+			}
+		}
+	}
 	msg := []byte("public key boundary")
 	for pi, pc := range pubs {
 		P := pc.P
